@@ -206,12 +206,22 @@ impl Check for C12 {
     }
 
     fn run(&self, run: &Run) {
-        let q = run.tier.quick();
+        let deep = !run.tier.quick();
+        let q = false;
         run.rule("every combination of gradient geometry x stop set x spread x global alpha x current transform is drawn as a full-surface Src fill on 24x24; every pixel's channels must lie within 4 of the range the analytic gradient colour takes for t within 3/255 (+|t|/255 for two-circle and sweep) of the pixel's analytic t; Pad beyond the ends is exact; two-circle without a valid circle is transparent; pixels within 1-1.5 px of a discontinuity of t (sweep seam, sweep centre) are not asserted; non-trivial = at least 100 asserted pixels");
         let geos = geometries(q);
         let stops = stop_sets(q);
         let ctm = ctms(q);
-        let alphas: Vec<f32> = if q { vec![1.0, 0.5] } else { vec![1.0, 0.5, 0.25, 0.0] };
+        let alphas: Vec<f32> = if deep { vec![1.0, 0.999, 0.75, 0.5, 0.25, 1.0 / 255.0, 0.0] } else { vec![1.0, 0.5, 0.25, 0.0] };
+        let mut ctm = ctm;
+        let mut stops = stops;
+        if deep {
+            ctm.extend([[1.5, 0., 0., 1.5, -6., -6.], [0.5, 0., 0., 0.5, 6., 6.], [0.9396926, -0.34202015, 0.34202015, 0.9396926, -3., 5.], [3., 0., 0., 3., -24., -24.]]);
+            let s = |v: &[(f32, u32)]| v.iter().map(|(p, c)| Stop { pos: *p, color: *c }).collect::<Vec<_>>();
+            stops.push(s(&[(0.0, 0x00000000), (1.0, 0xffffffff)]));
+            stops.push(s(&[(0.1, 0xff102030), (0.9, 0x10ff8040)]));
+            stops.push(s(&[(0.0, 0xffff0000), (0.33, 0xff00ff00), (0.33, 0xff0000ff), (0.66, 0xffffff00), (1.0, 0xff00ffff)]));
+        }
         run.bound("gradients", format!("{} geometries x {} stop sets x 3 spreads x {} alphas x {} transforms", geos.len(), stops.len(), alphas.len(), ctm.len()));
         run.par(geos.len() * ctm.len(), |s, l| {
             let (kind, p) = &geos[s / ctm.len()];
